@@ -29,6 +29,12 @@ RULE = (
     "RNGs (random, numpy, torch) being re-seeded differently before every step; len() is compared with "
     "the number yielded at every step; per (configuration, epoch) the per-rank lists go through the "
     "partition oracle. state = (configuration, rank, epoch) ; transition = one epoch consumed. "
+    "Live-iterator part (N in {3,4} / {3,4,6}, sequential + seeds 0,1, W in {1,2}, every rank, modes uneven/drop): every "
+    "operation sequence of length 2..4 (thorough 5; the deepest level only without a group) over {open_iter, "
+    "open_cur, open_next (iterator stored, not consumed), step (oldest held iterator advances by one), "
+    "drain_old, drain_new, peek_cur, len, iter} on ONE sampler object that opens an iterator before its last "
+    "operation; iterators still open at the end are drained oldest first; whatever is read from an iterator "
+    "opened for epoch e must be, prefix by prefix, what a fresh sampler created at epoch e yields for the rank. "
     "Distinct by construction; non-trivial = N >= 2. traces = histories also run without the seam "
     "(W=1) or inside a REAL gloo process group of 2 (thorough: 2 and 3) processes and compared."
 )
@@ -37,6 +43,8 @@ ASSUMPTIONS = [
     "the process group is simulated at torch.distributed.is_available/is_initialized/get_rank/"
     "get_world_size (the only four queries the samplers make); a real gloo group (file store, "
     "subprocesses) is used for a conformance subset only",
+    "an iterator handed out for an epoch is expected to stay valid while the sampler is used further (held, "
+    "half-consumed and abandoned iterators; at most 4/5 interleaved operations, at most that many live iterators)",
     "documented behaviour assumed beyond the property text: strict mode raises ValueError; base seeds "
     "a != b must not give order(a, epoch b) == order(b, epoch a) (Warnings section of EpochRandomSampler)",
 ]
@@ -61,6 +69,7 @@ def shards(tier, seed):
     for N in ((3, 4) if tier == "quick" else (3, 4, 6)):
         for kind in (None, 0, 1):
             out.append({"ops": True, "N": N, "seed": kind})
+            out.append({"live": True, "N": N, "seed": kind})
     return out
 
 
@@ -83,7 +92,7 @@ def _perturb():
     x = (_PERT[0] * 2654435761) % (2 ** 31)
     random.seed(x)
     np.random.seed(x)
-    torch.manual_seed(x)
+    torch.default_generator.manual_seed(x)  # torch.manual_seed would queue a traceback per call for lazy CUDA init
 
 
 def _take(s):
@@ -360,9 +369,124 @@ def _ops_part(ctx, N, kind, tier):
                              "example": ["peek_cur", "set2", "iter"]}})
 
 
+LIVE_OPS = ("open_iter", "open_cur", "open_next", "step", "drain_old", "drain_new", "peek_cur", "len", "iter")
+
+
+def _live_history(ctx, N, W, rank, mode, kind, ops, ref_cache):
+    """Iterators that are OPENED now and read LATER, interleaved with other operations on the same sampler
+    object.  Whatever is eventually read from an iterator opened for epoch e must be exactly what a fresh
+    sampler created at epoch e yields for this rank, whatever happened in between (held iterators still
+    open at the end of the sequence are drained oldest first)."""
+    api = _api(kind)
+    case = {"kind": "live", "N": N, "W": W, "rank": rank, "mode": mode, "seed": kind, "ops": list(ops)}
+
+    def ref(e):
+        key = (W, rank, mode, e)
+        if key not in ref_cache:
+            with SimulatedGroup(W, rank):
+                _perturb()
+                ref_cache[key] = _take(_mk(kind, N, e, mode))
+        return ref_cache[key]
+
+    def bad(symptom, k, h=None, **detail):
+        if h is not None:
+            detail.update(opened_by=h["by"], opened_at_step=h["at"], epoch=h["epoch"], expected=ref(h["epoch"]),
+                          read=h["got"])
+        ctx.violation({"api": api, "symptom": symptom, "mode": mode}, case, dict(detail, step=k))
+        return False
+
+    def read(h, k, how_many):
+        """advance a held iterator; False after a violation"""
+        want = ref(h["epoch"])
+        while how_many != 0 and not h["done"]:
+            try:
+                h["got"].append(int(next(h["it"])))
+            except StopIteration:
+                h["done"] = True
+                break
+            how_many -= 1
+            if h["got"] != want[: len(h["got"])]:
+                return bad("held-iterator-differs-from-fresh-sampler", k, h)
+        if h["done"] and h["got"] != want:
+            return bad("held-iterator-differs-from-fresh-sampler", k, h)
+        return True
+
+    with SimulatedGroup(W, rank):
+        s = _mk(kind, N, 0, mode)
+        cur, held = 0, []
+        for k, op in enumerate(tuple(ops) + ("drain_all",)):
+            if op not in ("step", "len"):
+                _perturb()
+            ctx.transitions += 1
+            live = [h for h in held if not h["done"]]
+            if op == "open_iter":
+                held.append({"it": iter(s), "epoch": cur, "got": [], "done": False, "by": op, "at": k})
+                cur += 1
+                if s.epoch != cur:
+                    return bad("epoch-not-advanced-by-iteration", k, observed=s.epoch, expected=cur)
+            elif op == "open_cur":
+                held.append({"it": iter(s.get_samples_for_epoch(s.epoch)), "epoch": cur, "got": [], "done": False,
+                             "by": op, "at": k})
+            elif op == "open_next":
+                held.append({"it": iter(s.get_samples_for_epoch(s.epoch + 1)), "epoch": cur + 1, "got": [],
+                             "done": False, "by": op, "at": k})
+            elif op == "step":
+                if live and not read(live[0], k, 1):
+                    return
+            elif op == "drain_old":
+                if live and not read(live[0], k, -1):
+                    return
+            elif op == "drain_new":
+                if live and not read(live[-1], k, -1):
+                    return
+            elif op == "drain_all":
+                for h in live:
+                    if not read(h, k, -1):
+                        return
+            elif op == "peek_cur":
+                got = [int(i) for i in s.get_samples_for_epoch(s.epoch)]
+                if got != ref(cur):
+                    return bad("order-depends-on-history", k, op=op, expected=ref(cur), observed=got)
+            elif op == "len":
+                if len(s) != len(ref(cur)):
+                    return bad("len-differs-from-yielded", k, len=len(s), expected=len(ref(cur)))
+            else:  # iter: a whole epoch drawn and consumed at once
+                got = _take(s)
+                if got != ref(cur):
+                    return bad("order-depends-on-history", k, op=op, expected=ref(cur), observed=got)
+                cur += 1
+    ctx.state([N, W, rank, mode, kind, cur, "live", list(ops)])  # every proper prefix is a sequence of its own
+    ctx.outcome(["live", len(held), cur, [len(h["got"]) for h in held]])
+
+
+def _live_part(ctx, N, kind, tier):
+    depth = 4 if tier == "quick" else 5
+    ref_cache = {}
+    opens = ("open_iter", "open_cur", "open_next")
+    for W in (1, 2):
+        for rank in range(W):
+            for mode in ("uneven", "drop"):
+                # the deepest level only without a group (the interleaving does not involve the rank slice)
+                for L in range(2, (depth if W == 1 and mode == "uneven" else depth - 1) + 1):
+                    for ops in itertools.product(LIVE_OPS, repeat=L):
+                        # sequences without a held iterator that is disturbed before it is read are the ops part
+                        first = next((j for j, o in enumerate(ops) if o in opens), None)
+                        if first is None or first == L - 1:
+                            continue
+                        if ops[0] in ("step", "drain_old", "drain_new"):
+                            continue  # nothing is held yet: same as the sequence without this operation
+                        ctx.case(1, 1 if N >= 2 else 0)
+                        _live_history(ctx, N, W, rank, mode, kind, ops, ref_cache)
+    ctx.sample({"live_part": {"N": N, "seed": kind, "alphabet": list(LIVE_OPS), "depth": depth,
+                              "example": ["open_cur", "open_next", "drain_old"]}})
+
+
 def run_shard(spec, tier, seed):
     ctx = Ctx()
     b = _bounds(tier)
+    if "live" in spec:
+        _live_part(ctx, spec["N"], spec["seed"], tier)
+        return ctx
     if "ops" in spec:
         _ops_part(ctx, spec["N"], spec["seed"], tier)
         return ctx
@@ -399,6 +523,9 @@ def run_shard(spec, tier, seed):
 def replay(case):
     ctx = Ctx()
     kind = case.get("kind")
+    if kind == "live":
+        _live_history(ctx, case["N"], case["W"], case["rank"], case["mode"], case["seed"], tuple(case["ops"]), {})
+        return ctx
     if kind == "ops":
         _ops_history(ctx, case["N"], case["W"], case["rank"], case["mode"], case["seed"], tuple(case["ops"]), {})
         return ctx
